@@ -210,3 +210,54 @@ def eval_primitive_orbitals(xyz, prims, mos, points):
         d = points - np.asarray(xyz[ic])
         vals[k] = d[:, 0] ** a * d[:, 1] ** b * d[:, 2] ** c * np.exp(-alpha * (d * d).sum(axis=1))
     return np.array([np.asarray(m[3]) @ vals for m in mos])
+
+
+# ---- MWFN (Multiwfn wavefunction file; T. Lu, "mwfn: a strict, concise and extensible format", 2020) -----------------------
+def mwfn(model):
+    """Same model dictionary as `fchk` (shell type codes and the order of functions inside a shell are those of .fch files,
+    as the format description states); coordinates are printed in angstrom.  Keys used: title (unused by the format),
+    z, cores, xyz (bohr), shells, nalpha, nbeta, ea, ca, [eb, cb], energy, virial, wfntype (0 RHF, 1 UHF, 2 ROHF),
+    occs (per listed orbital), optional density (total), syms."""
+    m = model
+    natom = len(m["z"])
+    shells = m["shells"]
+    ca = np.asarray(m["ca"])
+    nb = ca.shape[1]
+    nprims = sum(len(s[2]) * {0: 1, 1: 3, 2: 6, -2: 5, 3: 10, -3: 7, 4: 15, -4: 9, 5: 21, -5: 11}[s[1]] for s in shells)
+    out = ["# Generated by Multiwfn", f"Wfntype= {m['wfntype']:3d}", f"Charge= {m.get('charge', 0.0):14.6f}", f"Naelec= {float(m['nalpha']):14.6f}", f"Nbelec= {float(m['nbeta']):14.6f}",
+           f"E_tot= {m['energy']:15.8E}", f"VT_ratio= {m['virial']:11.8f}", "", "# Atom information", f"Ncenter= {natom:7d}", "$Centers"]
+    for i, (zi, q, r) in enumerate(zip(m["z"], m["cores"], np.asarray(m["xyz"]) / units.angstrom)):
+        out.append(f"{i + 1:6d} {periodic.NUM2SYM[zi]:<2s} {zi:3d} {q:5.1f} {r[0]:15.8f} {r[1]:15.8f} {r[2]:15.8f}")
+    out += ["", "# Basis function information", f"Nbasis= {nb:11d}", f"Nindbasis= {ca.shape[0]:8d}", f"Nprims= {nprims:11d}", f"Nshell= {len(shells):11d}",
+            f"Nprimshell= {sum(len(s[2]) for s in shells):7d}", "$Shell types"]
+    out += ["".join(f"{s[1]:3d}" for s in shells[k : k + 25]) for k in range(0, len(shells), 25)]
+    out.append("$Shell centers")
+    out += ["".join(f"{s[0] + 1:8d}" for s in shells[k : k + 10]) for k in range(0, len(shells), 10)]
+    out.append("$Shell contraction degrees")
+    out += ["".join(f"{len(s[2]):4d}" for s in shells[k : k + 20]) for k in range(0, len(shells), 20)]
+
+    def reals(vals):
+        vals = [float(v) for v in vals]
+        return ["".join(f"{v:16.8E}" for v in vals[k : k + 5]) for k in range(0, len(vals), 5)]
+
+    out.append("$Primitive exponents")
+    out += reals([e for s in shells for e in s[2]])
+    out.append("$Contraction coefficients")
+    out += reals([c for s in shells for c in s[3]])
+    norb_total = ca.shape[0] * (2 if m["wfntype"] == 1 else 1)
+    out += ["", f"# Orbital information ({'2*' if m['wfntype'] == 1 else ''}nindbasis orbitals)"]
+    rows = [(0 if m["wfntype"] != 1 else 1, m["ea"][i], ca[i]) for i in range(ca.shape[0])]
+    if m["wfntype"] == 1:
+        rows += [(2, m["eb"][i], np.asarray(m["cb"])[i]) for i in range(ca.shape[0])]
+    for i, (typ, en, coefs) in enumerate(rows):
+        if m["wfntype"] == 2 and m["occs"][i] == 1.0:
+            typ = 1  # singly occupied orbitals of an ROHF wavefunction are labelled alpha
+        out += [" ", f"Index= {i + 1:9d}", f"Type= {typ}", f"Energy= {en:15.8E}", f"Occ= {m['occs'][i]:10.6f}", f"Sym= {m['syms'][i] if m.get('syms') else '?'}", "$Coeff"]
+        out += reals(coefs)
+    assert len(rows) == norb_total
+    out += ["", "# Various matrices", ""]
+    if m.get("density") is not None:
+        out.append(f"$Total density matrix, dim= {nb:4d} {nb:4d}  lower= 1")
+        out += reals(tril(m["density"]))
+        out.append("")
+    return "\n".join(out) + "\n"
